@@ -192,8 +192,105 @@ class Canon(ast.NodeTransformer):
         return n
 
 
+def _unroll_yield_from(tree: ast.AST) -> int:
+    """K9: `yield from (E for a in A for b in B if c)` is the loop nest `for a in A: for b in B: if c: yield E` (the consumer sees the
+    same values in the same order, and the outermost iterable is evaluated at the same point).  Done only when the comprehension
+    variables are not names of the enclosing function, since a loop binds them in the function's scope."""
+    n = 0
+    for fn in [f for f in ast.walk(tree) if isinstance(f, (ast.FunctionDef, ast.AsyncFunctionDef))]:
+        for parent in ast.walk(fn):
+            for fld in ('body', 'orelse', 'finalbody'):
+                body = getattr(parent, fld, None)
+                if not (isinstance(body, list) and body and isinstance(body[0], ast.stmt)):
+                    continue
+                for k, st in enumerate(body):
+                    if not (isinstance(st, ast.Expr) and isinstance(st.value, ast.YieldFrom) and isinstance(st.value.value, (ast.GeneratorExp, ast.ListComp))):
+                        continue
+                    comp = st.value.value
+                    if any(g.is_async for g in comp.generators):
+                        continue
+                    bound = {x.id for g in comp.generators for x in ast.walk(g.target) if isinstance(x, ast.Name)}
+                    inside = {id(x) for x in ast.walk(comp)}
+                    outer = {x.id for x in ast.walk(fn) if isinstance(x, ast.Name) and id(x) not in inside} | {a.arg for a in ast.walk(fn.args) if isinstance(a, ast.arg)}
+                    if bound & outer:
+                        continue
+                    inner: ast.stmt = ast.Expr(value=ast.Yield(value=comp.elt))
+                    for g in reversed(comp.generators):
+                        for cond in reversed(g.ifs):
+                            inner = ast.If(test=cond, body=[inner], orelse=[])
+                        inner = ast.For(target=g.target, iter=g.iter, body=[inner], orelse=[], type_comment=None)
+                    for x in ast.walk(inner):
+                        if isinstance(x, ast.Name) and x.id in bound and isinstance(x.ctx, ast.Load) and any(x is t or x in ast.walk(t) for g in comp.generators for t in [g.target]):
+                            x.ctx = ast.Store()
+                    for g in comp.generators:
+                        for x in ast.walk(g.target):
+                            if hasattr(x, 'ctx'):
+                                x.ctx = ast.Store()
+                    ast.copy_location(inner, st)
+                    for x in ast.walk(inner):
+                        if isinstance(x, (ast.stmt, ast.expr)) and not hasattr(x, 'lineno'):
+                            ast.copy_location(x, st)
+                    body[k] = inner
+                    n += 1
+    return n
+
+
+def _correlated_constants(tree: ast.AST) -> int:
+    """K10: a closure that reads a variable of the enclosing function which is an integer constant chosen together with a boolean flag
+    (`if ...: flag = True; k = 5` / `else: flag = False; k = 6`, nothing else assigns `k`) reads `5 if flag else 6`.  Substituted into
+    the closure, so that its table correlates the constant with the flag instead of treating it as an unknown."""
+    import copy
+    n = 0
+    for fn in [f for f in ast.walk(tree) if isinstance(f, (ast.FunctionDef, ast.AsyncFunctionDef))]:
+        inner = [g for g in fn.body if isinstance(g, (ast.FunctionDef, ast.AsyncFunctionDef))]
+        if not inner:
+            continue
+        for st in fn.body:
+            if not (isinstance(st, ast.If) and st.orelse):
+                continue
+            def consts(body: list[ast.stmt]) -> dict[str, ast.Constant]:
+                out: dict[str, ast.Constant] = {}
+                for a in body:
+                    if isinstance(a, ast.Assign) and len(a.targets) == 1 and isinstance(a.targets[0], ast.Name) and isinstance(a.value, ast.Constant):
+                        out[a.targets[0].id] = a.value
+                return out
+            ct, cf = consts(st.body), consts(st.orelse)
+            flags = [k for k in ct if k in cf and ct[k].value is True and cf[k].value is False] + \
+                    [k for k in ct if k in cf and ct[k].value is False and cf[k].value is True]
+            if len(flags) != 1:
+                continue
+            flag = flags[0]
+            pos = ct[flag].value is True
+            names = [k for k in ct if k in cf and k != flag and type(ct[k].value) is int and type(cf[k].value) is int]
+            for k in names:
+                stores = [x for x in ast.walk(fn) if isinstance(x, ast.Name) and x.id == k and isinstance(x.ctx, (ast.Store, ast.Del))]
+                fstores = [x for x in ast.walk(fn) if isinstance(x, ast.Name) and x.id == flag and isinstance(x.ctx, (ast.Store, ast.Del))]
+                if len(stores) != 2 or len(fstores) != 2:
+                    continue
+                a, b = (ct[k], cf[k]) if pos else (cf[k], ct[k])
+
+                class R(ast.NodeTransformer):
+                    def visit_Name(self, x: ast.Name) -> Any:
+                        nonlocal n
+                        if x.id == k and isinstance(x.ctx, ast.Load):
+                            n += 1
+                            return ast.copy_location(ast.IfExp(test=ast.Name(id=flag, ctx=ast.Load()), body=copy.deepcopy(a), orelse=copy.deepcopy(b)), x)
+                        return x
+                for g in inner:
+                    if any(p.arg in (k, flag) for p in ast.walk(g.args) if isinstance(p, ast.arg)):
+                        continue
+                    R().visit(g)
+    return n
+
+
 def canonicalise(tree: ast.AST) -> dict[str, int]:
     c = Canon()
+    k10 = _correlated_constants(tree)
+    if k10:
+        c.count['K10'] = k10
+    k9 = _unroll_yield_from(tree)
+    if k9:
+        c.count['K9'] = k9
     c.visit(tree)
     ast.fix_missing_locations(tree)
     return c.count
